@@ -29,7 +29,7 @@ RULE = ("audit histories: simulated election x 2-5 rounds of non-decreasing size
 REQUIRED = ["histories", "rounds:redraw", "rounds:continue", "append_checked", "monotone_checked", "continue_equals_redraw_checked",
             "round_adds_card_before_already_selected", "round_without_change", "contest_full_hand_count", "style_on", "style_off",
             "p_decreased", "proved_carried_over", "fine_grained_histories", "histories_after_a_dry_run",
-            "confirmed_earlier_and_risk_now_above_limit"]
+            "confirmed_earlier_and_risk_now_above_limit", "histories_starting_with_construction_time_bounds_in_the_tests"]
 ASSUMPTIONS = ["the 'measured risk is non-increasing' clause is asserted for tests configured with random_order=True (the "
                "factories' setting); for random_order=False the overall value is the last history entry, so only the "
                "append clause and the kept confirmation are asserted there", "polling is only generated without style (the library gives it the whole sample); without style the sample "
@@ -100,6 +100,7 @@ def run_shard(spec, rec):
         es["_rseed"] = rng.randrange(10 ** 9)
         es["_dry_run"] = rng.random() < 0.3
         es["_fixed_order_tests"] = rng.random() < 0.15
+        es["_margins_not_via_cvrs"] = rng.random() < 0.25
         run_case(es, rec)
 
 
@@ -119,6 +120,8 @@ def run_variant(es, rounds, variant, rec):
         for con in sim.contests.values():
             con.sample_threshold = None
         rec.count("histories_after_a_dry_run")
+    if es.get("_margins_not_via_cvrs") and variant == "redraw":
+        rec.count("histories_starting_with_construction_time_bounds_in_the_tests")
     A = sim.L["Assertion"]
     if es.get("_fixed_order_tests"):
         # tests configured for data that are not in random order: the measured risk is the LAST history entry and may
@@ -127,6 +130,12 @@ def run_variant(es, rounds, variant, rec):
             for asn in con.assertions.values():
                 if getattr(asn.test.test, "__name__", "") != "wald_sprt":
                     asn.test.random_order = False
+    if es.get("_margins_not_via_cvrs"):
+        # margins taken by a route that does not write the bound into the test objects (reported tallies, direct
+        # assignment): the tests still hold their construction-time bound when the first round is evaluated
+        for con in sim.contests.values():
+            for asn in con.assertions.values():
+                asn.test.u = 1.0
     hist = []
     prev = None
     sink = io.StringIO()
